@@ -441,6 +441,16 @@ func lowerFont(i int, f FontSpec, l Layout) []symObj {
 		out[len(out)-1].Obj = fd.with("FontFile2", Ref(fmt.Sprintf("fontfile:%d", i)))
 		out = append(out, symObj{fmt.Sprintf("fontfile:%d", i), &Stream{D: Dict{{"Length1", Int(len(font))}}, Data: font}})
 		out = append(out, symObj{id, d})
+	case "tu1bad":
+		// TrueType with /ToUnicode and an embedded font program that cannot be read (truncated, or written by a
+		// broken subsetter): the text is defined by the ToUnicode map all the same (§9.10.2)
+		d := tt("MacRomanEncoding").with("ToUnicode", Ref(fmt.Sprintf("tu:%d", i)))
+		fd := out[len(out)-1].Obj.(Dict)
+		out[len(out)-1].Obj = fd.with("FontFile2", Ref(fmt.Sprintf("fontfile:%d", i)))
+		junk := []byte("\x00\x01\x00\x00\x00\x02 this is not a TrueType table directory, the file was cut here")
+		out = append(out, symObj{fmt.Sprintf("fontfile:%d", i), &Stream{D: Dict{{"Length1", Int(len(junk))}}, Data: junk}})
+		tu(1)
+		out = append(out, symObj{id, d})
 	case "tu1":
 		var d Dict
 		if i%2 == 0 {
